@@ -1,15 +1,108 @@
-"""scipy.optimize: least_squares contract stub (see DESIGN §3.5); minimize_scalar unmodelled"""
-from .. import core
+"""scipy.optimize as seen by the code under test.
 
+`least_squares` is a *contract stub* (DESIGN §3.5): it raises the ValueErrors scipy raises for an
+infeasible start (`lb >= ub`, `x0` outside the bounds, non-finite residuals at `x0`), and otherwise
+returns a fresh, arbitrary `x*` with `lb <= x* <= ub` and (optionally) `cost(x*) <= cost(x0)`, after
+evaluating the residual closure symbolically at `x0` and at `x*`.  Nothing about *how* scipy finds
+`x*` is modelled.  `minimize_scalar` is not modelled.
+"""
+from fractions import Fraction as F
+import math
+import types
+
+import numpy as _np
+
+from .. import core
+from ..core import SR
+from ..npshim import lift, objarr
+
+CONFIG = {"cost": True, "calls": [], "enabled": True, "nudge": None}
 HOOK = {"least_squares": None}
 
 
-def least_squares(fun, x0, bounds=(-float("inf"), float("inf")), **kw):
+def _special(v):
+    return isinstance(v, (float, _np.floating)) and (math.isinf(v) or math.isnan(v))
+
+
+def _bcast(b, n):
+    a = _np.asarray(b, dtype=object) if not isinstance(b, _np.ndarray) else b
+    if a.ndim == 0:
+        a = _np.full(n, a[()], dtype=object)
+    return [a[i] if _special(a[i]) else lift(a[i]) for i in range(n)]
+
+
+def least_squares(fun, x0, jac="2-point", bounds=(-float("inf"), float("inf")), method="trf", **kw):
     h = HOOK["least_squares"]
-    if h is None:
-        raise core.Abort("unsupported", "least_squares (no contract installed by this harness)")
-    return h(fun, x0, bounds=bounds, **kw)
+    if h is not None:
+        return h(fun, x0, bounds=bounds, **kw)
+    if not CONFIG["enabled"]:
+        raise core.Abort("unsupported", "least_squares (contract disabled by this harness)")
+    x0 = objarr(_np.atleast_1d(x0))
+    if x0.ndim != 1:
+        raise ValueError("`x0` must have at most 1 dimension.")
+    n = len(x0)
+    if len(bounds) != 2:
+        raise ValueError("`bounds` must contain 2 elements.")
+    lb, ub = _bcast(bounds[0], n), _bcast(bounds[1], n)
+    if len(lb) != n or len(ub) != n:
+        raise ValueError("Inconsistent shapes between bounds and `x0`.")
+    # ---- scipy's input validation (each comparison may fork)
+    for i in range(n):
+        lo, hi, x = lb[i], ub[i], lift(x0[i])
+        lo_inf = _special(lo) and lo < 0
+        hi_inf = _special(hi) and hi > 0
+        if _special(lo) and not lo_inf or _special(hi) and not hi_inf:
+            raise ValueError("Each lower bound must be strictly less than each upper bound.")
+        if not lo_inf and not hi_inf and not bool(lo < hi):
+            raise ValueError("Each lower bound must be strictly less than each upper bound.")
+        if _special(x):
+            raise ValueError("`x0` is infeasible.")
+        if (not lo_inf and not bool(lo <= x)) or (not hi_inf and not bool(x <= hi)):
+            raise ValueError("Initial guess is outside of provided bounds")
+    call = dict(x0=[lift(v) for v in x0], lb=lb, ub=ub, kwargs=dict(kw))
+    CONFIG["calls"].append(call)
+    f0 = _np.atleast_1d(fun(x0.copy()))
+    for v in f0.reshape(-1):
+        if _special(v):
+            raise ValueError("Residuals are not finite in the initial point.")
+    call["f0"] = f0
+    # ---- the result: arbitrary point inside the bounds
+    c = core.ctx()
+    xs = _np.empty(n, dtype=object)
+    for i in range(n):
+        if c.mode == "exact":
+            xs[i] = lift(x0[i])          # concrete validation runs: the optimiser "returns the start"
+            continue
+        v = core.var(f"lsq{len(CONFIG['calls'])}_x{i}")
+        lo, hi = lb[i], ub[i]
+        if not _special(lo):
+            core.assume(v >= lo, "optimiser contract: result within the bounds")
+        if not _special(hi):
+            core.assume(v <= hi, "optimiser contract: result within the bounds")
+        W = CONFIG.get("window")
+        if W is not None and _special(lo) and _special(hi):
+            core.assume(core.And(v >= lift(x0[i]) - W, v <= lift(x0[i]) + W),
+                        f"cut: unbounded parameters of the optimiser result lie within {W} of the start")
+        xs[i] = v
+    f1 = _np.atleast_1d(fun(xs.copy()))
+    call["x"] = xs
+    call["f1"] = f1
+    if any(_special(v) for v in f1.reshape(-1)):
+        raise core.Abort("infeasible", "optimiser contract: residual at the result is finite")
+    c0 = sum((lift(v) * lift(v) for v in f0.reshape(-1)), SR(F(0)))
+    c1 = sum((lift(v) * lift(v) for v in f1.reshape(-1)), SR(F(0)))
+    if CONFIG["cost"] and c.mode != "exact":
+        core.assume(c1 <= c0, "optimiser contract: cost at the result does not exceed the cost at the start")
+    return types.SimpleNamespace(x=xs, cost=c1 / 2, fun=f1, success=True, status=1, nfev=2, njev=1, optimality=SR(F(0)),
+                                 message="contract stub", active_mask=_np.zeros(n, dtype=int))
 
 
 def minimize_scalar(*a, **k):
     raise core.Abort("unsupported", "scipy.optimize.minimize_scalar is not modelled")
+
+
+def reset(cost=True, enabled=True, window=None):
+    CONFIG["window"] = window
+    CONFIG["cost"] = cost
+    CONFIG["enabled"] = enabled
+    CONFIG["calls"] = []
